@@ -273,6 +273,35 @@ func (it *stringIter) next(m *machine) tuple {
 	return res
 }
 
+// symStringIter ranges over a symbolic string character by character (1-2
+// byte UTF-8 sequences, at most runesMax characters).
+type symStringIter struct {
+	rem   *Term
+	off   int64
+	count int
+}
+
+func (it *symStringIter) next(m *machine) tuple {
+	if m.branch(mkStrEq(it.rem, mkStr(""))) {
+		return tuple{false, int64(0), int64(0)}
+	}
+	if it.count >= m.runesMax {
+		panic(cut{fmt.Sprintf("range over a symbolic string of more than %d characters (outside bound)", m.runesMax)})
+	}
+	c, rest := m.firstCharAny(it.rem)
+	res := tuple{true, it.off, &runeStr{enc: c}}
+	n := int64(1)
+	if c.Op == "cs" {
+		n = int64(len(c.S))
+	} else if m.known[mkIntEq(mkLen(c), mkInt(2)).key] {
+		n = 2
+	}
+	it.off += n
+	it.count++
+	it.rem = rest
+	return res
+}
+
 func (m *machine) rangeIter(x value, t types.Type) iter {
 	switch x := x.(type) {
 	case *mapV:
@@ -285,7 +314,7 @@ func (m *machine) rangeIter(x value, t types.Type) iter {
 	case string:
 		return &stringIter{s: x}
 	case *Term:
-		panic(cut{"range over a symbolic string"})
+		return &symStringIter{rem: x}
 	}
 	panic(fmt.Sprintf("cannot range over %T", x))
 }
